@@ -28,6 +28,7 @@ func sidStr(s ShardID) string { return fmt.Sprintf("%d:%d", s.ClusterID, s.Shard
 type Violation struct {
 	Property string `json:"property"`
 	Clause   string `json:"clause"`
+	Sig      string `json:"sig,omitempty"`
 	Detail   string `json:"detail"`
 	Decision int    `json:"decision"`
 	VTimeMs  int64  `json:"vtime_ms"`
